@@ -13,4 +13,9 @@ namespace Romea.Hidden.C19
 
 theorem hidden_state_as_recorded : Romea.Generated.C19.hiddenState = [] := by rfl
 
+/-- The names (not only the types) of what every translated function reads, carries through its loops and returns are those
+    the bridge theorems were written against: a function that now reads or writes ANOTHER member of the same type keeps its Lean
+    type, and a positional application in a bridge would keep checking. -/
+theorem signatures_as_recorded : Romea.Generated.C19.signatures = [] := by rfl
+
 end Romea.Hidden.C19
